@@ -1133,6 +1133,17 @@ func exploreSignerPlugin(x *xrun, r *Rng, e *env, ctx context.Context, n int) {
 		if r.Chance(1, 15) {
 			p.err = errors.New("scripted plugin failure")
 		}
+		// an in-process plugin answering (nil, nil) (fix 0b937c8: an error, not a panic)
+		switch r.Intn(24) {
+		case 0:
+			p.key = nil
+		case 1:
+			p.sigResp, p.envResp = nil, nil
+		case 2:
+			p.key, p.sigResp, p.envResp = nil, nil, nil
+		case 3:
+			p.meta = nil
+		}
 		x.call("plugin-answers", entry, format, in, boundSmall, func() {
 			ps, err := signer.NewPluginSigner(p, "kid", map[string]string{"c": "d"})
 			if err != nil {
